@@ -33,6 +33,8 @@ NI long vf_gt_ptr_s(const STab::Pair *tab, size_t n, const char *key)
 // ---- generic presorted_set: state installed member by member (any state the harness describes)
 NI void vf_gs_setup(GSet *p, Elem *arr, size_t sz, size_t rsz, size_t reserve)
 	{ const_cast<size_t&>(p->_reserve) = reserve; p->_sz = sz; p->_rsz = rsz; p->_arr = arr; }
+NI void vf_gs_ctor_arr(GSet *p, const Elem *from, size_t sz, size_t reserve) { new (p) GSet(from, sz, reserve); }
+NI void vf_gs_ctor_empty(GSet *p, size_t reserve) { new (p) GSet(size_t(0), reserve); }
 NI Elem *vf_gs_arr(GSet *p) { return p->_arr; }
 NI size_t vf_gs_sz(GSet *p) { return p->size(); }
 NI size_t vf_gs_rsz(GSet *p) { return p->rsize(); }
@@ -45,6 +47,8 @@ NI void vf_gs_clear(GSet *p) { p->clear(); }
 // ---- Presence = presorted_set<unsigned short, FieldTrait, FieldTrait::Compare>
 NI void vf_ps_setup(Presence *p, FieldTrait *arr, size_t sz, size_t rsz, size_t reserve, const FieldTrait_Hash_Array *ftha)
 	{ p->_reserve = reserve; p->_sz = sz; p->_rsz = rsz; p->_arr = arr; p->_ftha = ftha; }
+NI void vf_ps_ctor_arr(Presence *p, const FieldTrait *from, size_t sz, size_t reserve) { new (p) Presence(from, sz, reserve); }
+NI void vf_ps_ctor_empty(Presence *p, size_t reserve) { new (p) Presence(size_t(0), reserve); }
 NI void vf_ps_ctor_ftha(Presence *p, const FieldTrait *from, size_t sz, const FieldTrait_Hash_Array *ftha) { new (p) Presence(from, sz, ftha); }
 NI void vf_ps_ctor_copy(Presence *p, const Presence *from) { new (p) Presence(*from); }
 NI FieldTrait *vf_ps_arr(Presence *p) { return p->_arr; }
